@@ -10,6 +10,7 @@ import (
 	"fmt"
 	"math"
 	"reflect"
+	"regexp"
 	"strconv"
 	"strings"
 
@@ -32,6 +33,10 @@ type Node struct {
 	I  int64   `json:"i,omitempty"`
 	FB uint64  `json:"fb,omitempty"`
 	A  []*Node `json:"a,omitempty"`
+	// Sp: the spelling of a non-negative int / flt leaf (hexadecimal, binary, leading
+	// zeros, exponent forms). Used by the printers only when it denotes exactly I / FB
+	// by Go's strconv (spellOf); never part of the canonical tree.
+	Sp string `json:"sp,omitempty"`
 }
 
 var none = &Node{K: "none"}
@@ -139,7 +144,8 @@ func sidesOf(op string) []string {
 
 type tok struct {
 	s    string
-	word bool // identifier, keyword or number
+	word bool  // identifier, keyword or number
+	num  *Node // the int / flt leaf a spelled numeral token was printed from
 }
 
 type printer struct {
@@ -156,8 +162,8 @@ type printer struct {
 	forcedEmpty int      // empty list literal parenthesised before an index/slice
 }
 
-func (p *printer) w(s string)    { p.toks = append(p.toks, tok{s, true}) }
-func (p *printer) pn(s string)   { p.toks = append(p.toks, tok{s, false}) }
+func (p *printer) w(s string)    { p.toks = append(p.toks, tok{s: s, word: true}) }
+func (p *printer) pn(s string)   { p.toks = append(p.toks, tok{s: s}) }
 func (p *printer) list(ns []*Node) {
 	for i, n := range ns {
 		if i > 0 {
@@ -199,6 +205,10 @@ func (p *printer) expr(n *Node) {
 	case "id", "kw":
 		p.w(n.S)
 	case "int":
+		if sp := spellOf(n); sp != "" {
+			p.toks = append(p.toks, tok{sp, true, n})
+			return
+		}
 		if n.I < 0 {
 			// never generated; keeps replay of hand-written cases well-formed
 			p.pn("-")
@@ -207,6 +217,10 @@ func (p *printer) expr(n *Node) {
 			p.w(strconv.FormatInt(n.I, 10))
 		}
 	case "flt":
+		if sp := spellOf(n); sp != "" {
+			p.toks = append(p.toks, tok{sp, true, n})
+			return
+		}
 		s := strconv.FormatFloat(math.Float64frombits(n.FB), 'f', -1, 64)
 		if !strings.Contains(s, ".") {
 			s += ".0"
@@ -338,6 +352,82 @@ func (p *printer) expr(n *Node) {
 	default:
 		p.w("BAD_" + n.K)
 	}
+}
+
+// ---------- spelled numerals ----------
+
+var (
+	spIntRe = regexp.MustCompile(`^(0[xX][0-9a-fA-F]+|0[bB][01]+|[0-9]+)$`)
+	spFltRe = regexp.MustCompile(`^[0-9]+(\.[0-9]+)?([eE][+-]?[0-9]+)?$`)
+)
+
+// spellOf returns the spelling to print for an int / flt leaf, or "" for the plain
+// one. A spelling is used only when it has the lexical shape of a number literal and Go's
+// strconv says it denotes exactly the leaf's value (keeps hand-written and shrunk
+// replay cases well-formed: the model's value never depends on the parser under test).
+func spellOf(n *Node) string {
+	sp := n.Sp
+	if sp == "" || len(sp) > 80 {
+		return ""
+	}
+	switch n.K {
+	case "int":
+		if n.I < 0 || !spIntRe.MatchString(sp) {
+			return ""
+		}
+		low := strings.ToLower(sp)
+		var v int64
+		var err error
+		switch {
+		case strings.HasPrefix(low, "0x"):
+			v, err = strconv.ParseInt(low[2:], 16, 64)
+		case strings.HasPrefix(low, "0b"):
+			v, err = strconv.ParseInt(low[2:], 2, 64)
+		default:
+			v, err = strconv.ParseInt(low, 10, 64)
+		}
+		if err != nil || v != n.I {
+			return ""
+		}
+		return sp
+	case "flt":
+		if !spFltRe.MatchString(sp) || !strings.ContainsAny(sp, ".eE") {
+			return ""
+		}
+		v, err := strconv.ParseFloat(sp, 64)
+		if err != nil || math.Float64bits(v) != n.FB {
+			return ""
+		}
+		return sp
+	}
+	return ""
+}
+
+// spForm names the form of a numeral spelling for class counters and signatures.
+func spForm(sp string) string {
+	switch {
+	case strings.HasPrefix(sp, "0x"), strings.HasPrefix(sp, "0X"):
+		body := sp[2:]
+		switch {
+		case body == strings.ToLower(body) && body == strings.ToUpper(body):
+			return "hex-digits-only"
+		case body == strings.ToLower(body):
+			return "hex-lower"
+		case body == strings.ToUpper(body):
+			return "hex-upper"
+		}
+		return "hex-mixed"
+	case strings.HasPrefix(sp, "0b"), strings.HasPrefix(sp, "0B"):
+		return "binary"
+	case strings.ContainsAny(sp, "eE"):
+		if strings.ContainsAny(sp, "+-") {
+			return "float-signed-exponent"
+		}
+		return "float-exponent"
+	case strings.Contains(sp, "."):
+		return "float-fraction"
+	}
+	return "decimal-leading-zeros"
 }
 
 // merges: single-character token followed by a character that the language's token
